@@ -124,6 +124,8 @@ Unresolved ==
     nomacrofnlen |-> [tp |-> ("main" :> <<Import(LS(NT.t1), "L"), For1("i", L12, <<PrintS(MCall("L", "length", <<LS(sX)>>))>>)>>) @@ ("t1" :> Lib), err |-> "unknown"],
     nomacrofnself |-> [tp |-> ("main" :> Lib \o <<T(<<97>>), PrintS(MCall("_self", "max", <<LI(3), LI(4)>>))>>), err |-> "unknown"],
     nomodulefn |-> [tp |-> ("main" :> <<T(<<97>>), Set("z", MCall("nothing", "max", <<LI(1), LI(2)>>)), T(sX)>>), err |-> "unknown"],
+    \* ... nor is a macro of the importing template what alias.name() asks for
+    nomacrolocal |-> [tp |-> ("main" :> <<Import(LS(NT.t1), "L"), Macro("bb", <<>>, <<T(<<76>>)>>), T(<<97>>), PrintS(MCall("_self", "bb", <<>>)), PrintS(MCall("L", "bb", <<>>))>>) @@ ("t1" :> Lib), err |-> "unknown"],
     nomacroself |-> [tp |-> ("main" :> Lib \o <<PrintS(MCall("_self", "nomac", <<>>))>>), err |-> "unknown"],
     nofrom    |-> [tp |-> ("main" :> <<From(LS(NT.t1), <<"nomac">>, <<"nomac">>), PrintS(Call("nomac", <<>>))>>) @@ ("t1" :> Lib), err |-> "unknown"],
     noinclude |-> [tp |-> ("main" :> <<T(<<97>>), Inc(LS(NT.nx))>>), err |-> "notfound"],
